@@ -144,7 +144,7 @@ def _calls_in(relpath, qual):
     return names
 
 
-@structural("C11/scan/need_flags", props=["C11", "C10", "C07", "C04"],
+@structural("C11/scan/need_flags", props=["C11", "C10", "C07", "C04", "C12"],
             note="the cached need (_implied_need) is recomputed only for steps flagged _check_after; the graph operations "
                  "that change a step's consumers or attachment must flag: Step.detach / Step.reattach flag the step and its "
                  "products, Step.detach also the source steps of the detached subtree; the first metadata pass writes every "
@@ -170,6 +170,9 @@ def need_flags():
         out.append((f"scan/need_flags/closure_text/{const}", now == want, f"{const} differs from specs/sql/{const.lower()}.sql"))
     flag = sqlfront.normalize(extract.module_constant("stepup/core/step.py", "RECURSIVE_CHECK_WITH_PRODUCTS"))
     out.append(("scan/need_flags/products_statement_sets_check_after", "_check_after = 1" in flag or "_check_after = TRUE" in flag, flag[-200:]))
+    # the same statement flags the subtree for the recomputation of _safe (C12: a recycled step gets a creator again,
+    # which may be holding; while detached it had none and counted as safe)
+    out.append(("scan/need_flags/products_statement_sets_check_safe", "_check_safe = 1" in flag or "_check_safe = TRUE" in flag, flag[-200:]))
     upd = sqlfront.normalize(extract.module_constant("stepup/core/scheduler.py", "UPDATE_CHECK_AFTER"))
     out.append(("scan/need_flags/first_pass_writes_every_row",
                 "WHERE :first OR ( new_implied_need != old_implied_need OR new_tail_time != old_tail_time )" in upd, upd[-300:]))
